@@ -1054,8 +1054,26 @@ func bodyC05(s *Sim) {
 			s.Store.Remove(objKey{KERS, def.NS, e.Status.ActiveReplicaSet})
 		}
 	}
-	// pass the end of the duration with whatever pause/validation/failure state the chaos left
 	r := subRng(s.Seed, "c05end")
+	// a two-container canary pod whose less restarted container restarted last
+	if e := s.Store.GetEDS(def.NS, def.Name); e != nil && e.Status.Canary != nil && r.IntN(2) == 0 {
+		for _, p := range s.Store.Pods() {
+			if isDaemonPod(p, def.NS, def.Name) && p.Labels[edsv1.ExtendedDaemonSetReplicaSetNameLabelKey] == e.Status.Canary.ReplicaSet && !terminating(p) && len(p.Spec.Containers) == 2 {
+				s.kSettle(p)
+				if pp := s.Store.GetPod(p.Namespace, p.Name); pp != nil && len(pp.Status.ContainerStatuses) == 2 {
+					s.kRestartContainer(pp, 0, "Error")
+					s.kRestartContainer(s.Store.GetPod(p.Namespace, p.Name), 0, "Error")
+					s.Advance(time.Duration(20+r.IntN(60)) * time.Second)
+					s.kRestartContainer(s.Store.GetPod(p.Namespace, p.Name), 1, "Error")
+					s.kSettle(s.Store.GetPod(p.Namespace, p.Name))
+					s.Advance(s.maxFrequency() + time.Second)
+					s.RunTask(CtrlERS, types.NamespacedName{Namespace: def.NS, Name: e.Status.Canary.ReplicaSet})
+				}
+				break
+			}
+		}
+	}
+	// pass the end of the duration with whatever pause/validation/failure state the chaos left
 	for i := 0; i < 3; i++ {
 		ds := s.advanceCandidates()
 		s.Advance(ds[r.IntN(len(ds))])
